@@ -35,6 +35,9 @@ CLAIMED = {
  "C11": ("event-language inclusion (CFG x boolean flags x buffer mode x specification DFA), def-use on element loops, constant folding, kind-domain abstract interpretation of the simple-value renderer",
          "Decides what can break the read-back for every value at once: the separator / bracket / newline state machine. The language of yielded token events over all paths of the recursive chunk generator (all seven layout modes, any number of loop iterations, recursion as one letter = structural induction) is included in the JSON token skeleton; every element loop emits one element per iteration from the container / sorted keys with nothing skipped; literal tables, quoting and line cutting are as required; the simple/compound split is exhaustive on the JSON kinds with bool before number.",
          "Round-trip equality on concrete data, thresholds / offsets (they only choose among modes each of which is verified), float formatting and the excluded characters are NOT decided. Keys are assumed to be strings for JSON mode.", "3/C11"),
+ "C12": ("affine (linear-equality) width domain with path facts and a bound-substitution prover, loop invariant checking, contracts verified on callees, event language of the row builder, guard / def-use rules",
+         "Decides rectangularity and separator alignment as linear identities over symbolic column widths on every path: each of the eight kinds of emitted line has width sum(w)+n+1; fit_to_width and resize_chunks_list return exactly the requested width (the truncation loop by a checked invariant; preconditions such as width-min(3,width) >= 0 by bound substitution); cells are fitted to their column's width over the one column list; rows are SEP CELL (SEP CELL)* SEP under a '+'('-'*w '+')* border; widths stay within their bounds; record accounting under limits (tail-slice pitfall, overlap-free limit condition, skipped count) and absence of in-place mutation of possibly shared lists.",
+         "Assumes n >= 1 columns and non-negative widths. Which characters a cell shows (prefix + dots vs full value) is decided only as widths, not content; enum length cache vs text is not compared (every cell is re-fitted to the column width).", "3/C12"),
 }
 
 NOT_APPLICABLE = {
